@@ -252,7 +252,9 @@ func templateReplay(e *Engine, o *Obl, repo, dir string) (bool, string, bool) {
 		if err != nil && !strings.Contains(out2, "GVC-") {
 			tr.WriteString("replay: test run failed: " + err.Error() + "\n")
 		}
-		if strings.Contains(out2, "GVC-VIOLATION") || strings.Contains(out2, "GVC-PANIC") {
+		// a panic on another goroutine of the code under test (e.g. the kernel's main loop) kills the test binary
+		crashed := strings.Contains(out2, "\npanic: ") && strings.Contains(out2, "\ngoroutine ")
+		if strings.Contains(out2, "GVC-VIOLATION") || strings.Contains(out2, "GVC-PANIC") || crashed {
 			tr.WriteString("replay: REPRODUCED (the scenario violates the property on the real code)\n")
 			return true, tr.String(), true
 		}
